@@ -16,6 +16,8 @@ use std::collections::BTreeMap;
 
 struct Bulk {
 	expect: BTreeMap<Vec<u8>, Option<Vec<u8>>>,
+	/// companion column (second hash column growing at the same time, written once)
+	expect1: BTreeMap<Vec<u8>, Vec<u8>>,
 	rc: bool,
 	trace: Vec<String>,
 }
@@ -50,6 +52,16 @@ impl Bulk {
 				))
 			}
 		}
+		for (k, e) in &self.expect1 {
+			let g = db.get(1, k).map_err(|er| ("failure=get_error;phase=bulk;col=companion".to_string(), format!("get(1, {}) returned {} {}", short_bytes(k), er, at)))?;
+			rep.evaluations += 1;
+			if g.as_ref() != Some(e) {
+				return Err((
+					format!("failure=read_mismatch;phase=bulk;col=companion;got={};expected=some", if g.is_some() { "some" } else { "none" }),
+					format!("get({}) on the second growing column returned {} but the committed value is {} ({})", short_bytes(k), g.as_ref().map_or("nothing".into(), |v| short_bytes(v)), short_bytes(e), at),
+				))
+			}
+		}
 		rep.count("bulk_full_reads", 1);
 		Ok(())
 	}
@@ -58,20 +70,29 @@ impl Bulk {
 pub fn run_bulk(ctx: &Ctx, rep: &mut Report, prop: &str, case_seed: u64, variant: u64) {
 	let mut rng = Rng::new(case_seed);
 	let rc = prop != "C01" && (variant / 16) % 3 == 2;
-	let mut cfg = DbCfg::new(vec![col(false, true, rc, rc, CompressionType::NoCompression)]);
+	// two hash columns whose indexes grow at the same time (the reindex stage serves one column per call)
+	let two = (variant / 16) % 2 == 1;
+	let mut cols = vec![col(false, true, rc, rc, CompressionType::NoCompression)];
+	if two {
+		cols.push(col(false, true, false, false, CompressionType::NoCompression));
+	}
+	let mut cfg = DbCfg::new(cols);
 	cfg.salt = Some([0u8; 32]);
 	let desc = format!("{} bulk case_seed={} variant={} cfg=[{}]", prop, case_seed, variant, cfg.describe());
 	ctx.mark(&desc);
 	let dir = Scratch::new("bulk");
 	let opts = cfg.options(&dir.path.join("db"));
-	let mut b = Bulk { expect: BTreeMap::new(), rc, trace: vec![] };
+	let mut b = Bulk { expect: BTreeMap::new(), expect1: BTreeMap::new(), rc, trace: vec![] };
 	let res = catch(|| -> Result<(), (String, String)> {
 		let step_err = |s: &str, e: parity_db::Error| ("failure=step_error;phase=bulk".to_string(), format!("{} returned {}", s, e));
 		let mut db = Some(Db::open_or_create(&opts).map_err(|e| step_err("open_or_create", e))?);
 		// ---- key set: a few hundred pages of uneven fill + one page that overflows
 		let mut keys: Vec<Vec<u8>> = vec![];
 		let mut pages = std::collections::BTreeSet::new();
-		let target = rng.range(8300, 11000) as usize;
+		// with two growing columns their sizes differ: the reindex stage serves one column per
+		// call, so the columns need different numbers of calls (one batch = 8192 entries)
+		let big_second = two && rng.chance(2, 3);
+		let target = if big_second { rng.range(300, 3000) as usize } else { rng.range(8300, 11000) as usize };
 		while keys.len() < target {
 			let page = rng.below(1 << 16);
 			if !pages.insert(page) {
@@ -99,6 +120,39 @@ pub fn run_bulk(ctx: &Ctx, rep: &mut Report, prop: &str, case_seed: u64, variant
 				k
 			})
 			.collect();
+		let mut keys1: Vec<Vec<u8>> = vec![];
+		let mut hot_keys1: Vec<Vec<u8>> = vec![];
+		if two {
+			let mut pages1 = std::collections::BTreeSet::new();
+			let target1 = if big_second { rng.range(8300, 19000) as usize } else { rng.range(300, 9000) as usize };
+			while keys1.len() < target1 {
+				let page = rng.below(1 << 16);
+				if !pages1.insert(page) {
+					continue
+				}
+				for _ in 0..rng.range(20, 60) {
+					let prefix = (page << 48) | (rng.next() >> 16);
+					let mut k = prefix.to_be_bytes().to_vec();
+					k.extend_from_slice(&rng.bytes(24));
+					keys1.push(k);
+				}
+			}
+			let hot1 = loop {
+				let p = rng.below(1 << 16);
+				if !pages1.contains(&p) {
+					break p
+				}
+			};
+			hot_keys1 = (0..rng.range(66, 80))
+				.map(|_| {
+					let prefix = (hot1 << 48) | (rng.next() >> 16);
+					let mut k = prefix.to_be_bytes().to_vec();
+					k.extend_from_slice(&rng.bytes(24));
+					k
+				})
+				.collect();
+			rep.count("bulk_two_growing_columns", 1);
+		}
 		rng.shuffle(&mut keys);
 		// ---- fill: the spread keys first (no page overflows), then the hot page (growth starts)
 		let n_tx = rng.range(1, 4) as usize;
@@ -115,12 +169,26 @@ pub fn run_bulk(ctx: &Ctx, rep: &mut Report, prop: &str, case_seed: u64, variant
 				dbutil::do_step(d, Step::ProcessCommits).map_err(|e| step_err("process_commits", e))?;
 			}
 		}
+		if two {
+			let d = db.as_ref().unwrap();
+			let tx: Vec<_> = keys1.iter().map(|k| (1u8, parity_db::Operation::Set(k.clone(), value_of(k, 1)))).collect();
+			d.commit_changes(tx).map_err(|e| step_err("commit", e))?;
+			for k in &keys1 {
+				b.expect1.insert(k.clone(), value_of(k, 1));
+			}
+			b.trace.push(format!("commit {} keys to the second column", keys1.len()));
+		}
 		{
 			let d = db.as_ref().unwrap();
 			dbutil::drain(d).map_err(|e| step_err("drain", e))?;
 			b.trace.push("drain".into());
 			b.check_all(d, rep, "after the bulk fill was applied")?;
-			let tx: Vec<_> = hot_keys.iter().map(|k| (0u8, parity_db::Operation::Set(k.clone(), value_of(k, 0)))).collect();
+			let mut tx: Vec<_> = hot_keys.iter().map(|k| (0u8, parity_db::Operation::Set(k.clone(), value_of(k, 0)))).collect();
+			// (the second column's page overflows in the same transaction: both growths are pending together)
+			for k in &hot_keys1 {
+				tx.push((1u8, parity_db::Operation::Set(k.clone(), value_of(k, 1))));
+				b.expect1.insert(k.clone(), value_of(k, 1));
+			}
 			d.commit_changes(tx).map_err(|e| step_err("commit", e))?;
 			for k in &hot_keys {
 				b.expect.insert(k.clone(), Some(value_of(k, 0)));
@@ -140,7 +208,7 @@ pub fn run_bulk(ctx: &Ctx, rep: &mut Report, prop: &str, case_seed: u64, variant
 			ctx.progress();
 			let d = db.as_ref().unwrap();
 			let st = d.verif_status();
-			let pending = st.next_reindex != 0 || !st.columns[0].reindex_index_bits.is_empty();
+			let pending = st.next_reindex != 0 || st.columns.iter().any(|c| !c.reindex_index_bits.is_empty());
 			if !pending {
 				break
 			}
